@@ -202,7 +202,7 @@ func checkC15(r *Run) {
 	// R3 address
 	r.RequireOnSuccess("C15-R3", "cipher.AddressFromBytes",
 		req("exact length", "len($0) == 25"),
-		req("checksum equals the recomputed checksum", "local:checksum == cipher.Address.Checksum(*)"),
+		req("checksum equals the recomputed checksum", "local:[4]byte == cipher.Address.Checksum(*)"),
 		req("version 0", "*.Version == 0"))
 	r.RequireOnSuccess("C15-R3", "cipher.DecodeBase58Address", req("base58 decoded", "ok(cipher/base58.Decode($0))"), req("bytes parsed", "ok(cipher.AddressFromBytes(cipher/base58.Decode($0)#0))"))
 	r.ReturnShape("C15-R3", "cipher.Address.String", 0, ShapeCase{"", "cipher/base58.Encode(cipher.Address.Bytes($0))"})
